@@ -640,9 +640,9 @@ def rule_r3(chk, p, t):
 
 
 # ====================================================================== R4
-def rule_r4(chk, p, t):
+def rule_r4(chk, p, t, rid="C04.R4"):
     r = chk.rule(
-        "C04.R4",
+        rid,
         "reduction parameters",
         2,
         "in both builders rot_rnp is the transpose of rot_pnr, rot_wt of rot_w, rot_pnr = rot_pn . rot_pef2tod, and "
@@ -690,9 +690,9 @@ def rule_r4(chk, p, t):
 
 
 # ====================================================================== R5
-def rule_r5(chk, p, t):
+def rule_r5(chk, p, t, rid="C04.R5"):
     r = chk.rule(
-        "C04.R5",
+        rid,
         "sidereal-rotation siblings",
         2,
         "getRotR and special_perturbations._getRotationMatrix compute the sidereal rotation alike: "
@@ -770,9 +770,9 @@ def rule_r5(chk, p, t):
 
 
 # ====================================================================== R6
-def rule_r6(chk, p, t):
+def rule_r6(chk, p, t, rid="C04.R6"):
     r = chk.rule(
-        "C04.R6",
+        rid,
         "calendar tables",
         2,
         "month-length literal is the Gregorian table in dayOfYear and days2mdh; the leap adjustment writes index 1; "
